@@ -216,7 +216,9 @@ int KSI_TlvElement_serialize(const KSI_TlvElement *element, unsigned char *buf, 
 		goto cleanup;
 	}
 
-	if (element->subList == NULL || KSI_TlvElementList_length(element->subList) == 0) {
+	/* Only an element that has never been expanded is written from the octets it was parsed from; an expanded element
+	 * is made of its children, also when none of them is left. */
+	if (element->subList == NULL) {
 		dat_len = element->ftlv.dat_len;
 
 		if (buf != NULL) {
